@@ -383,7 +383,20 @@ fn main() {
             Ok(raw)
         });
         let started = rx.recv_timeout(Duration::from_secs(30)).is_ok();
-        // the responder is inside the large response now: publish a small asset of the same class
+        // the responder is inside the large response now: a burst of requests from independent connections queues up
+        // behind it (every one of them must be answered once the responder is free) ...
+        let burst_target = eps[ei].published.iter().rev().find(|(_, u)| *u != big_id).cloned();
+        let mut burst = vec![];
+        if let Some((bc, bid)) = burst_target {
+            for k in 0..48 {
+                let bpath = format!("/{}/{}", CLASSES[bc], bid);
+                burst.push(std::thread::spawn(move || {
+                    let r = request(addr, "GET", bpath.as_bytes(), &[]);
+                    (k, bpath, r)
+                }));
+            }
+        }
+        // ... and a small asset of the same class is published
         let id = Uuid::from_bytes(rng.bytes(16).try_into().unwrap());
         let blen = rng.below(40) + 1;
         let bytes = payload(&mut rng, blen);
@@ -409,6 +422,7 @@ fn main() {
             }
         };
         eps[ei].published.push((c, id));
+        let pub_idx = lines.len();
         lines.push(format!("pub {} {} {} {} URL {}", ei, CLASSES[c], hex(id.as_bytes()), hex(&bin), hex(url.as_bytes())));
         *stats.entry(format!("http.slow_reader.{}", CLASSES[c])).or_default() += 1;
         let tag = format!("http-{}-slow{}", seed, c);
@@ -424,6 +438,26 @@ fn main() {
                 oracle_fail += 1;
                 lines.push(format!("#ORACLE-FAIL http {} the slow download of a large {} did not complete: {:?}", tag, CLASSES[c], other.err()));
             }
+        }
+        // (the burst's target was published before this phase: its lines go before nothing that could change its answer)
+        let mut not_served = 0;
+        let mut burst_lines = vec![];
+        for b in burst {
+            let (k, bpath, r) = b.join().unwrap();
+            if !matches!(&r, Ok(resp) if resp.status == 200) {
+                not_served += 1;
+            }
+            burst_lines.push(format!("req http-{}-burst{}-{:02} {} GET {} {}", seed, c, k, ei, hex(bpath.as_bytes()), resp_desc(&r)));
+        }
+        burst_lines.sort();
+        *stats.entry("http.slow_reader.burst_requests".into()).or_default() += burst_lines.len() as u64;
+        if not_served > 0 {
+            oracle_fail += 1;
+            lines.push(format!("#ORACLE-FAIL http http-{}-burst{}-00 {} of {} requests for a published asset that arrived while the responder was busy with a large response were not answered with 200", seed, c, not_served, burst_lines.len()));
+        }
+        // the burst lines are placed before this phase's `pub` line
+        for (j, l) in burst_lines.into_iter().enumerate() {
+            lines.insert(pub_idx + j, l);
         }
         let path = format!("/{}/{}", CLASSES[c], id);
         let r = request(eps[ei].addr, "GET", path.as_bytes(), &[]);
